@@ -663,8 +663,14 @@ func c05GenCacheLayer(r *Rng, tier string, idx int, args map[string]string) []st
 			y := r.Intn(100)
 			switch {
 			case y < 30: // exact repeat
-			case y < 55 || focusQuery: // same normal form, other spelling
+			case y < 48 || focusQuery: // same normal form, other spelling
 				req.q = c05Variant(r, req.q)
+			case y < 55 && strings.Contains(strings.TrimSpace(req.q), " "):
+				// a DIFFERENT request that is almost the same text: inner spacing changed (the typo fallback
+				// matches the query text spaces included, so these must never share an entry)
+				q := strings.TrimSpace(req.q)
+				i := strings.Index(q, " ")
+				req.q = q[:i] + Pick(r, []string{"  ", "   ", " \t", "\t"}) + strings.TrimLeft(q[i:], " ")
 			case y < 90: // exactly one option field changed
 				o := req.o
 				// copy reference fields before changing anything (requests must not share maps)
